@@ -258,7 +258,9 @@ struct GuardedBlock {
 };
 
 // errno values used as "hard" driver errors in scripts
-static const int HARD_ERRORS[] = {EIO, EPIPE, ENOMEM, ECONNRESET, EBADF, ENOSPC};
+// errors a driver may fail with: any negative value is "a hard error" unless it is -EINTR / -EAGAIN; the list includes codes that do not fit 7 or 8 bits
+static const int HARD_ERRORS[] = {EIO, EPIPE, ENOMEM, ECONNRESET, EBADF, ENOSPC, 129 /* EKEYREJECTED */, 133 /* EHWPOISON */, 255, 256, 4095, 32768, 70000};
+static const size_t N_HARD_ERRORS = sizeof HARD_ERRORS / sizeof *HARD_ERRORS;
 static inline bool is_transient(int64_t e) { return e == -EINTR || e == -EAGAIN; }
 
 // ---- transfers that cannot be materialised (2^31 octets and more): a chunk-style driver over a reserved address range that nobody
